@@ -55,13 +55,15 @@ func runC10AppClient(ep *core.Episode) {
 
 	// ---- scripted server: answers every complete request, after a hold the scheduler decides ----
 	type peerState struct {
-		p       *PeerConn
-		pending []string // request ids received and not yet answered
-		using   string   // request id of the exchange in progress
+		p        *PeerConn
+		pending  []string // request ids received and not yet answered
+		using    string   // request id of the exchange in progress
+		answered bool     // its response has been sent
 	}
 	var peers []*peerState
 	dialer.OnConnect = func(p *PeerConn) { peers = append(peers, &peerState{p: p}) }
 	returned := map[string]bool{}
+	seenReq := map[string]int{}
 	S.AddSource(core.SourceFunc(func(add func(core.Event)) {
 		for _, ps := range peers {
 			ps := ps
@@ -78,11 +80,28 @@ func runC10AppClient(ep *core.Episode) {
 					break
 				}
 				id, _ := m.Get("X-Req-Id")
-				if ps.using != "" && !returned[ps.using] && !released[ps.using] && ps.using != id {
-					ep.Fail("C10.exclusive", "connection k%d carries request %s while call %s is still using it", ps.p.ID, id, ps.using)
+				if id == "" {
+					// calls made through the URL helpers carry their id in the path
+					if k := strings.LastIndexByte(m.Target, '/'); k >= 0 {
+						id = m.Target[k+1:]
+					}
+				}
+				// judged on the wire: a second request on a connection whose previous request has not been answered yet
+				if ps.using != "" && !ps.answered && ps.using != id {
+					ep.Fail("C10.exclusive", "connection k%d carries request %s while the exchange for %s is still in progress on it", ps.p.ID, id, ps.using)
 					return
 				}
-				ps.using = id
+				ps.using, ps.answered = id, false
+				// the server is healthy and nothing is ever retried in this scenario: every request arrives exactly once, as its caller built it
+				seenReq[id]++
+				if seenReq[id] > 1 {
+					ep.Fail("C10.once", "request %s arrived %d times at a healthy server (connection k%d)", id, seenReq[id], ps.p.ID)
+					return
+				}
+				if h, _ := m.Get("Host"); !strings.HasPrefix(h, "a.test") && !strings.HasPrefix(h, "b.test") {
+					ep.Fail("C10.match", "request %s arrived with Host %q", id, h)
+					return
+				}
 				ps.pending = append(ps.pending, id)
 			}
 			if len(ps.pending) > 0 {
@@ -92,6 +111,9 @@ func runC10AppClient(ep *core.Episode) {
 					r := &wire.Msg{Proto: "HTTP/1.1", Status: 200, Reason: "OK", Headers: []wire.Header{{K: "X-Req-Id", V: id}}, Body: []byte("resp-for-" + id)}
 					b, _ := r.Encode()
 					ps.p.B.Send(b, 0)
+					if id == ps.using {
+						ps.answered = true
+					}
 				}})
 			}
 		}
@@ -150,7 +172,24 @@ func runC10AppClient(ep *core.Episode) {
 				req.Header.Set("X-Req-Id", c.id)
 				name := fmt.Sprintf("caller-%d", ci)
 				curCall[name] = c.id
-				c.err = cli.Do(context.Background(), req, resp)
+				api := tp.Choose("api", 3)
+				if api == 0 {
+					c.err = cli.Do(context.Background(), req, resp)
+				} else {
+					// the URL helpers with a deadline: the exchange runs on a goroutine of its own and may outlive the call
+					tmo := []time.Duration{0, 50 * time.Millisecond, 20 * time.Second}[api]
+					st, body, gerr := cli.GetTimeout(context.Background(), nil, "http://"+c.host+"/x/"+c.id, tmo)
+					c.err = gerr
+					if gerr == nil {
+						resp.SetStatusCode(st)
+						resp.SetBody(body)
+						resp.Header.Set("X-Req-Id", c.id) // the helper returns status and body only
+						if string(body) != "resp-for-"+c.id {
+							ep.Fail("C10.match", "GetTimeout for %s returned the body %q", c.id, wire.Trunc(string(body), 40))
+						}
+					}
+					ep.Probe("url-helper-call")
+				}
 				S.Yield("caller.afterDo")
 				curCall[name] = ""
 				returned[c.id] = true
@@ -160,6 +199,8 @@ func runC10AppClient(ep *core.Episode) {
 					}
 				} else if strings.Contains(c.err.Error(), "dial") && strings.Contains(c.err.Error(), "timeout") {
 					ep.Probe("dial-timeout-returned") // the scheduler held the dial back for longer than the dial timeout
+				} else if errors.Is(c.err, errs.ErrTimeout) && api >= 1 {
+					ep.Probe("url-helper-timeout") // the scheduler let more than the deadline pass
 				} else if !errors.Is(c.err, errs.ErrNoFreeConns) {
 					ep.Fail("C10.match", "call %s to a healthy server failed: %v", c.id, c.err)
 				} else {
